@@ -311,8 +311,13 @@ func c29Gen(rng *rand.Rand, tier string, w *bufio.Writer) {
 	for c := 0; c < cases; c++ {
 		fmt.Fprintf(w, "case %d\n", caseNo)
 		caseNo++
+		var used [][]byte
 		for i, n := 0, 1+rng.Intn(per); i < n; i++ {
 			name := c29Name(rng)
+			if len(used) > 0 && rng.Intn(6) == 0 { // two files claiming the same swamp name: the index keeps one entry
+				name = used[rng.Intn(len(used))]
+			}
+			used = append(used, name)
 			switch k := rng.Intn(24); {
 			case k >= 22:
 				legacy(name, "v2cmp")
